@@ -39,6 +39,8 @@ def cq_strs(ss):
 ID = "C19"
 CHECK_MODULE = "Pdiff.UpdateCheck"
 PROPS_FILE = "Props/C19.v"
+# update_file applies patches through patches_from_ed_script and patch_lines: regenerated and tied in C18's tie file
+TIE_FILE = "Props/C18Tie.v"
 ANCHORS = [("lib/debian/debian_support.py",
             ["update_file", "download_file", "download_gunzip_lines", "replace_file",
              "read_lines_sha1", "read_lines_sha256", "new_sha1", "new_sha256", "PackageFile",
@@ -85,7 +87,11 @@ ASSUMPTIONS = [
     "no '.new' file exists before the call; unlink of '.new' fails only where the schedule says so (theorems: never)",
 ]
 
-VOCAB = ["a\n", "b\n", "c\n", "\n", " x\n", "Package: p\n", "1a\n", "2,3d\n", "..\n", "é z\n", "w\n", "s/.//\n"]
+VOCAB = ["a\n", "b\n", "c\n", "\n", " x\n", "Package: p\n", "1a\n", "2,3d\n", "..\n", "é z\n", "w\n", "s/.//\n",
+         # a dot followed by blanks is content, not the terminator; characters that str.splitlines() treats as line
+         # boundaries but a file's readlines() does not
+         ". \n", ".\t\n", " .\n", ". .\n", "x\x0cy\n", "p\x0bq\n", "u\u2028v\n", "e\x85f\n", "g\x1ch\n", "h\x1d\x1ei\n",
+         "\u2029\n", "\x0c\n"]
 FOREIGN_EXTRA = ["zz\n", "a", "q q\n", "\u2028k\n"]
 
 
